@@ -3,6 +3,7 @@ package vh
 import (
 	"encoding/json"
 	"flag"
+	"fmt"
 	"strings"
 
 	cli "github.com/jawher/mow.cli"
@@ -15,6 +16,9 @@ type ImplicitCase struct {
 	Argv  []string `json:"argv"`
 	// Argv2, when non-nil, is a second command line given to the SAME application object after Argv
 	Argv2 []string `json:"argv2,omitempty"`
+	// ArgEnv[i]: argument i is declared with an environment variable that holds a value at declaration time
+	// (this changes its initial value, never the spec)
+	ArgEnv []bool `json:"arg_env,omitempty"`
 }
 
 func runOrdered(c *ImplicitCase, spec string, argv []string) (Outcome, string) {
@@ -61,10 +65,19 @@ func runOrderedSeq(c *ImplicitCase, spec string, argv, argv2 []string) (Outcome,
 					unsetenv(env)
 				}
 			} else {
-				a := c.D.Args[idx-len(c.D.Opts)]
+				ai := idx - len(c.D.Opts)
+				a := c.D.Args[ai]
 				v := &Rec{}
 				set := new(bool)
-				app.Var(cli.VarArg{Name: a.Name, Value: v, SetByUser: set})
+				env := ""
+				if ai < len(c.ArgEnv) && c.ArgEnv[ai] {
+					env = fmt.Sprintf("VERIF_A_%d", ai)
+					setenv(env, "envarg")
+				}
+				app.Var(cli.VarArg{Name: a.Name, Value: v, EnvVar: env, SetByUser: set})
+				if env != "" {
+					unsetenv(env)
+				}
 				hs = append(hs, Holder{Key: c.D.ArgKey(idx - len(c.D.Opts)), Rec: v, Set: set})
 			}
 		}
@@ -125,11 +138,11 @@ func CheckC16(c *ImplicitCase, st *Stats) *Violation {
 	st.Eval()
 	spec, ast, d := explicitSpec(c)
 	Begin("C16", "implicit", c)
+	defer End() // every later library call of this check stays under the watchdog
 	ri, _ := runOrdered(c, "", c.Argv)
 	re, _ := runOrdered(c, spec, c.Argv)
 	_, ui := runOrdered(c, "", []string{"--help"})
 	_, ue := runOrdered(c, spec, []string{"--help"})
-	End()
 	if ri.Panic != "" || re.Panic != "" {
 		return Violf("Run panicked: implicit %q explicit %q; decls [%s] order %v argv %q", ri.Panic, re.Panic, FmtDecls(c.D), c.Order, c.Argv)
 	}
@@ -173,6 +186,12 @@ func CheckC16(c *ImplicitCase, st *Stats) *Violation {
 	}
 	if len(c.D.Args) == 0 {
 		st.Class("decls:no-argument")
+	}
+	for _, e := range c.ArgEnv {
+		if e {
+			st.Class("decls:argument-with-environment-value")
+			break
+		}
 	}
 	inter := false
 	seenArg := false
